@@ -1,7 +1,7 @@
 SPECIFICATION Spec
 CONSTANTS
   Scripts = {"plain"}
-  Subs = {"ok", "mathy", "realmut"}
+  Subs = {"ok", "mathy", "realmut", "modsetT", "modget"}
   MaxLen = 2
   ClearResets <- CodeClearResets
   Writes <- W
